@@ -42,6 +42,7 @@ class Session:
         self.seq = 0
         self.history = []
         co = rng.random() < 0.6
+        self.co = co
         for ns in NSS:
             b.on_server('connect', lambda sid, env, auth=None: None, ns, co)
             b.on_server('*', self.mk('server', ns, True), ns, co)
@@ -245,10 +246,73 @@ class Session:
                                  % (r[3], gen.expected_args(data)))
         ctx.case((self.cfg, 'burst', direction, n), None)
 
+    def overlap(self):
+        """Several emits with callbacks outstanding at once (asyncio pairing,
+        coroutine handlers that take different virtual times): the answers
+        come back out of order and a further emit is issued while older ones
+        are still unanswered.  Every callback must receive its own handler's
+        return value, exactly once."""
+        import asyncio
+        from vlib import drive as DD
+        rng, b, ctx = self.rng, self.b, self.ctx
+        direction = rng.choice(['c2s', 's2c'])
+        ns = rng.choice(NSS)
+        sender = b.h.c if direction == 'c2s' else b.d.sio
+        kw = {'namespace': ns}
+        if direction == 's2c':
+            kw['to'] = self.sids[ns]
+        got = {}
+        msgs = []
+
+        def mk_msg(delay):
+            name = self.new_name()
+            ret = self.payload()
+            self.rets[name] = DD.Delay(ret, delay)
+            msgs.append((name, ret))
+            return name
+
+        def cb_for(name):
+            def cb(*a):
+                got.setdefault(name, []).append(a)
+            return cb
+
+        async def go():
+            first = [mk_msg(d) for d in rng.sample([3, 1, 2, 0.5], 3)]
+            for name in first:
+                await sender.emit(name, {'n': name}, callback=cb_for(name),
+                                  **kw)
+            await asyncio.sleep(rng.choice([0.7, 1.5, 2.5]))
+            late = [mk_msg(d) for d in (1, 0.2)]
+            for name in late:
+                await sender.emit(name, {'n': name}, callback=cb_for(name),
+                                  **kw)
+        self.history.append({'overlap': direction, 'ns': ns})
+        try:
+            b.run(go(), horizon=50.0)
+        except Exception as e:
+            return self.fail('overlapping emits raised %r' % e)
+        if b.errors():
+            return self.fail('errors during overlapping emits: %r' % [
+                e.get('exc') for e in b.errors()[:2]])
+        ctx.count('overlapping_callback_groups')
+        for name, ret in msgs:
+            want = tuple(gen.expected_args(ret))
+            g = got.get(name, [])
+            if len(g) != 1 or not R.deep_eq(list(g[0]), list(want)):
+                return self.fail(
+                    'emit %r with several callbacks outstanding: its '
+                    'callback was invoked %d times with %r, its handler '
+                    'returned %r' % (name, len(g), g[:2], ret),
+                    {'messages': [m[0] for m in msgs], 'direction':
+                     direction})
+        ctx.case((self.cfg, 'overlap', direction, self.async_handlers), None)
+
     def run(self):
         rng = self.rng
         for _ in range(rng.choice([20, 40])):
-            if rng.random() < 0.12:
+            if self.b.is_async and self.co and rng.random() < 0.06:
+                self.overlap()
+            elif rng.random() < 0.12:
                 self.burst()
             else:
                 self.one()
@@ -299,6 +363,7 @@ def run(ctx):
     ctx.require('callbacks_judged', 50)
     ctx.require('calls_judged', 50)
     ctx.require('bursts_judged', 10)
+    ctx.require('overlapping_callback_groups', 5)
     ctx.require('binary_frames_through_bridge', 50)
     for cfg in CONFIGS:
         ctx.require('sessions_%s_%s_%s' % cfg, 1)
